@@ -29,6 +29,15 @@ func XStatements(level int) [][]*Node {
 		add(If(c(), Ex(As("=", I("x"), N("5"))), Ex(As("=", I("x"), N("6")))), pr(I("x")))
 		add(If(Bi("==", c(), N("1")), Ret(nil), nil), e1())
 	}
+	// brace-less branches that end in the closing brace / parenthesis of a function expression or literal
+	for _, c := range []func() *Node{T1, F0} {
+		add(If(c(), Ex(Ca(Do(Ar(N("1"), N("2")), "forEach"), F("", []string{"v"}, pr(I("v"))))), e2()))
+		add(If(c(), Ex(As("=", I("x"), F("", nil, Ret(N("1"))))), Ex(As("=", I("x"), N("2")))), pr(I("x")))
+		add(If(c(), Ex(As("=", I("x"), Ob(I("k"), N("1")))), Ex(As("=", I("x"), Ob()))), pr(Do(I("x"), "k")))
+		add(If(c(), Ex(Ca(G(F("", nil, e1())))), e2()))
+		add(If(c(), While(F0(), Ex(Ca(I("print"), F("", nil)))), e2()), e1())
+		add(If(c(), If(T1(), Ex(Ca(G(F("", nil, e1())))), e2()), pr(N("3"))))
+	}
 	// while
 	add(Let("k", N("0")), While(lt("k"), Block(Ex(inc("k")), pr(I("k")))))
 	add(Let("k", N("0")), While(Bi("<", inc("k"), N("2")), pr(I("k"))), e1())
